@@ -16,6 +16,7 @@ var harnesses = map[string]func(*vsched.H){
 	"MergeReq":             harness.MergeReq,
 	"RouterScenario":       harness.RouterScenario,
 	"SessionEnd":           harness.SessionEnd,
+	"StorageSeq":           harness.StorageSeq,
 	"CacheConcurrent":      harness.CacheConcurrent,
 	"CacheHandlerSessions": harness.CacheHandlerSessions,
 }
